@@ -637,7 +637,7 @@ Fixpoint exec (fuel : nat) (s : stmt) (st : state) {struct fuel} : res state :=
               | Some old =>
                   do nv <- aug_value op old v st1;
                   match old, hget st1 old with
-                  | VLoc l, Some (OCell _) => Ok (hset l (OCell nv) st1)
+                  | VLoc l, Some (OCell _) => Ok (addlog "update" [] (hset l (OCell nv) st1))
                   | VLoc _, _ => Er (ErrType "augmented assignment to a non-payload object")
                   | _, _ => Ok (setenv x nv st1)
                   end
